@@ -17,6 +17,8 @@ package main
 
 import (
 	"bytes"
+	"context"
+	"errors"
 	"fmt"
 	"os"
 	"sort"
@@ -157,8 +159,25 @@ func (c *c12Runner) runRestoreNonEmpty(backend string, seed uint64, size uint64,
 		j := r.Intn(i + 1)
 		order[i], order[j] = order[j], order[i]
 	}
+	transient := -1
+	if len(order) > 1 && r.Chance(1, 3) {
+		// a transient failure that is not the chunk's fault (the caller's context is gone): the chunk
+		// must stay restorable, and the version finalized afterwards must be complete
+		cctx, cancel := context.WithCancel(ctx)
+		cancel()
+		if _, err = rs.RestoreChunk(cctx, uint64(order[0]), bytes.NewReader(cd.chunks[order[0]])); err != nil {
+			transient = order[0]
+			c.res.Count("restorene:transient-failure")
+		} else {
+			order = order[1:]
+		}
+	}
 	for _, i := range order {
 		if _, err = rs.RestoreChunk(ctx, uint64(i), bytes.NewReader(cd.chunks[i])); err != nil {
+			if i == transient && errors.Is(err, checkpoint.ErrChunkAlreadyRestored) {
+				c.fail("spec", "spec-restore-chunk-lost-after-transient-failure", fmt.Sprintf("%s: RestoreChunk(%d) failed once under a cancelled context; the retry with the genuine bytes is refused as already restored, so the version would be finalized without this chunk's nodes", backend, i))
+				return
+			}
 			if strings.Contains(err.Error(), "max proof depth") || strings.Contains(err.Error(), "verification failed") {
 				// F3 (known finding of C04/C12): deep trees cannot be restored at all
 				c.res.Count("restorene:chunk-not-restorable")
